@@ -39,7 +39,7 @@ def has_fact(conds_or_facts, atom_term, want=True):
     return False
 
 
-def analyse(F, s, classes):
+def analyse(F, s, classes, stores=None):
     ts = StructTS(s)
     c = fieldclass.ctor(F, s)
     if c is None or c["ok"] is None:
@@ -48,6 +48,11 @@ def analyse(F, s, classes):
     init = c["fields"]
     for f, t in init.items():
         if isinstance(t, tuple) and t[0] == "fromelem":
+            # the buffer invariant len = period needs the Box never to be replaced after construction
+            replaced = [x for x in (stores or {}).get((s, f), []) if x[1] == "whole" and x[3] != "new"]  # (a `&mut Box` handed to a call is C18-G3)
+            if replaced:
+                ts.errors.append("buffer `%s` is stored to / mutably borrowed as a whole in %s: its length is not fixed by the constructor" % (f, replaced[0][0]))
+                continue
             ts.buffers[f] = t[2]
     for f, t in init.items():
         if classes[s].get(f) == "PARAM" and isinstance(t, tuple) and t[0] == "arg" and any(t == ln for ln in ts.buffers.values()):
@@ -329,8 +334,8 @@ _cache = {}
 def all_structs(F):
     k = id(F)
     if k not in _cache:
-        classes, _ = fieldclass.classify_fields(F)
-        _cache[k] = {s: analyse(F, s, classes) for s in F.indicators()}, classes
+        classes, stores = fieldclass.classify_fields(F)
+        _cache[k] = {s: analyse(F, s, classes, stores) for s in F.indicators()}, classes
     return _cache[k]
 
 
